@@ -2,7 +2,12 @@
 
 Tie: `rbacx.core.policy.evaluate` / `rbacx.core.policyset.decide` against the model's
 `evaluate` / `decideTree` on (decision, policy_id), and the independent combining spec
-(`Rbacx.Spec.tree`) evaluated by the Lean driver on the implementation's output."""
+(`Rbacx.Spec.tree`) evaluated by the Lean driver on the implementation's output.
+
+Tie by regeneration: the combining logic itself — the tail of the rule loop and the finalisation of `evaluate`, the tail of the child
+loop and the finalisation of `decide` — is translated from the current source text (harness/extractors/src_translation_fragments.py),
+proved equal to the model by the per-run obligation `Run/C02_translated.lean`, and evaluated against the same statements run by
+CPython (`translated_vs_python`)."""
 from __future__ import annotations
 
 import itertools
@@ -210,6 +215,149 @@ def run_cases(run: lib.Run, audit: dict, scale: int = 1):
                                       "rule_id": g["ok"]["rule_id"], "policy_id": g["ok"]["policy_id"]}}, "spec": ans["spec"]})
 
 
+# ---------------------------------------------------------------------- translated fragments vs the same statements run by CPython
+
+ALGOS4 = ["deny-overrides", "permit-overrides", "first-applicable", "no-such-algorithm"]
+OBL = [{"type": "require_mfa"}]
+
+
+def _raw(decision="permit", reason="matched", rule_id="r", last_rule_id="r", obligations=(), policy_id="<absent>", tail=False):
+    """a raw decision dict; `policy_id` absent (what evaluate returns), fifth (decide's display) or last (`tail`: a copied policy result)"""
+    d = {"decision": decision, "reason": reason, "rule_id": rule_id, "last_rule_id": last_rule_id}
+    if policy_id != "<absent>" and not tail:
+        d["policy_id"] = policy_id
+    d["obligations"] = obligations if not isinstance(obligations, tuple) else list(obligations)
+    if policy_id != "<absent>" and tail:
+        d["policy_id"] = policy_id
+    return d
+
+
+def _res_pool():
+    out = []
+    k = 0
+    for dec in ("permit", "deny", "other", "", None, 5, 1.5):
+        for rid, lid in ((None, None), ("r", "r"), ("", ""), (None, "l"), ("a", None), (5, None), ("", "l")):
+            for reason in ("matched", "explicit_deny", "no_match"):
+                k += 1
+                shape = k % 3
+                out.append(_raw(dec, reason, rid, lid, OBL if k % 2 else [], "<absent>" if shape == 0 else "inner", tail=shape == 2))
+    return out
+
+
+# value pools per variable NAME of the current source; a variable the pools do not know gets DEFAULT_POOL
+DEFAULT_POOL = [None, False, True, "x", ""]
+STATE_EVALUATE = [   # loop states of `evaluate`: initial / a permit seen / a deny seen / both / after first-applicable
+    {"last_rule_id": None, "decision": "deny", "obligations": [], "reason": "no_match", "any_deny": False, "deny_rule_id": None,
+     "any_permit": False, "permit_rule_id": None, "permit_obligations": []},
+    {"last_rule_id": "p1", "decision": "deny", "obligations": [], "reason": "action_mismatch", "any_deny": False, "deny_rule_id": None,
+     "any_permit": True, "permit_rule_id": "p1", "permit_obligations": OBL},
+    {"last_rule_id": "", "decision": "deny", "obligations": [], "reason": "condition_mismatch", "any_deny": True, "deny_rule_id": "",
+     "any_permit": False, "permit_rule_id": None, "permit_obligations": []},
+    {"last_rule_id": "d1", "decision": "deny", "obligations": [], "reason": "no_match", "any_deny": True, "deny_rule_id": "d1",
+     "any_permit": True, "permit_rule_id": "", "permit_obligations": []},
+    {"last_rule_id": "f", "decision": "permit", "obligations": OBL, "reason": "matched", "any_deny": False, "deny_rule_id": None,
+     "any_permit": False, "permit_rule_id": None, "permit_obligations": []},
+]
+D1, D2 = _raw("deny", "explicit_deny", "d", "d", OBL), _raw("deny", "explicit_deny", None, "", "ab", "in")
+P1, P2, P3 = _raw("permit", "matched", "p", "p", OBL), _raw("permit", "", "", None, None, "in"), _raw("permit", None, "q", "q", [], "in", tail=True)
+STATE_DECIDE = [     # loop states of `decide`
+    {"last_rule_id": None, "first_applicable_result": None, "first_applicable_pid": None, "any_deny": False, "deny_result": None,
+     "deny_pid": None, "any_permit": False, "permit_result": None, "permit_pid": None},
+    {"last_rule_id": "d", "first_applicable_result": None, "first_applicable_pid": None, "any_deny": True, "deny_result": D1,
+     "deny_pid": "pd", "any_permit": False, "permit_result": None, "permit_pid": None},
+    {"last_rule_id": "p", "first_applicable_result": None, "first_applicable_pid": None, "any_deny": False, "deny_result": None,
+     "deny_pid": None, "any_permit": True, "permit_result": P1, "permit_pid": None},
+    {"last_rule_id": "", "first_applicable_result": None, "first_applicable_pid": None, "any_deny": True, "deny_result": D2,
+     "deny_pid": "", "any_permit": True, "permit_result": P2, "permit_pid": "pp"},
+    {"last_rule_id": "q", "first_applicable_result": P3, "first_applicable_pid": "pf", "any_deny": False, "deny_result": None,
+     "deny_pid": None, "any_permit": False, "permit_result": None, "permit_pid": None},
+]
+RULES = [{}, {"obligations": None}, {"obligations": []}, {"obligations": OBL}, {"obligations": "ab"}, {"obligations": {"k": 1}},
+         {"obligations": [1, None, OBL[0]]}]
+GRID = {
+    # fragment: (explicit axes by variable name, state vectors or None)
+    "evaluate_step": ({"rule": RULES, "rid": ["r1", "", None], "algo": ALGOS4, "effect": ["permit", "deny", "other"]}, STATE_EVALUATE),
+    "evaluate_final": ({"algo": ALGOS4, "any_deny": [False, True], "any_permit": [False, True], "deny_rule_id": [None, "d"],
+                        "permit_rule_id": [None, ""], "permit_obligations": [[], OBL], "last_rule_id": [None, "", "l"],
+                        "decision": ["deny", "permit"], "reason": ["no_match", "matched"], "obligations": [[], OBL]}, None),
+    "decide_step": ({"res": _res_pool(), "algo": ALGOS4, "pid": [None, "pol"]}, STATE_DECIDE),
+    "decide_final": ({"algo": ALGOS4, "any_deny": [False, True], "any_permit": [False, True], "first_applicable_result": [None, P1, P3],
+                      "first_applicable_pid": ["pf"], "deny_result": [None, D1, D2], "deny_pid": ["pd"],
+                      "permit_result": [None, P1, P2, P3], "permit_pid": ["pp"], "last_rule_id": [None, "l"]}, None),
+}
+MAX_PER_FRAGMENT = 8000
+
+
+def fragment_grid(name: str, inputs: list[str], r: random.Random):
+    """every combination of the axes (× the state vectors) as argument lists in the order `inputs`; variables that are neither an
+    axis nor in the state vectors range over DEFAULT_POOL; sampled down (seeded) beyond MAX_PER_FRAGMENT"""
+    axes, states = GRID.get(name, ({}, None))
+    states = states or [{}]
+    free_axes = [v for v in inputs if v not in states[0]]
+    pools = [axes.get(v, DEFAULT_POOL) for v in free_axes]
+    total = len(states)
+    for pl in pools:
+        total *= len(pl)
+    combos = itertools.product(states, *pools)
+    if total > MAX_PER_FRAGMENT:
+        keep = set(r.sample(range(total), MAX_PER_FRAGMENT))
+        combos = (c for i, c in enumerate(combos) if i in keep)
+    for st, *vals in combos:
+        env = dict(st)
+        env.update(zip(free_axes, vals))
+        yield [env.get(v) for v in inputs]
+
+
+def translated_vs_python(run: lib.Run, facts: dict | None = None) -> tuple[bool, str]:
+    """each translated fragment (Generated.Src.*, evaluated by `lake env lean --run Rbacx/Run/SrcEvalFrag.lean`) against the SAME
+    statement range of the current source text, wrapped into a Python function and run by CPython, over an exhaustive grid of small
+    inputs: validates the translator's fragment mode and Model/PyLib.lean (what the obligation C02_translated trusts)"""
+    import copy
+    import json
+    import subprocess
+    import pytolean
+    from extractors import src_translation_fragments as frs
+    r = random.Random(run.seed * 223 + 9)
+    mods = {"src/rbacx/core/policy.py": rpolicy, "src/rbacx/core/policyset.py": rset}
+    calls = []
+    for rel, fn, kind, start, lean_name, _known in frs.FRAGMENTS:
+        mod = mods[rel]
+        src = open(mod.__file__, encoding="utf-8").read()
+        try:
+            pyf, inputs, _outs = pytolean.fragment_as_python(src, fn, kind, start, vars(mod))
+        except pytolean.Unsupported as e:
+            return False, f"fragment {lean_name}: {e}"
+        if facts is not None and inputs != facts[lean_name]["inputs"]:
+            return False, f"fragment {lean_name}: inputs of the imported module {inputs} differ from the extracted ones {facts[lean_name]['inputs']}"
+        for args in fragment_grid(lean_name, inputs, r):
+            try:
+                want = ("ok", pyf(*copy.deepcopy(args)))
+            except Exception as e:  # noqa: BLE001
+                want = ("raised", type(e).__name__)
+            calls.append((lean_name, args, want))
+    lines = [json.dumps({"fn": fn, "args": [proto.enc(a) for a in args]}) for fn, args, _ in calls]
+    p = subprocess.run(["lake", "env", "lean", "--run", "Rbacx/Run/SrcEvalFrag.lean"], cwd=lib.LEAN, input="\n".join(lines) + "\n",
+                       capture_output=True, text=True, timeout=900)
+    outs = [ln for ln in p.stdout.split("\n") if ln]
+    if p.returncode != 0 or len(outs) != len(lines):
+        return False, "SrcEvalFrag: " + (p.stderr or p.stdout)[-800:]
+    bad = 0
+    for (fn, args, want), ln in zip(calls, outs):
+        got = json.loads(ln)
+        run.count("translated-fragment")
+        if want[0] != "ok":
+            run.count("translated-fragment: python raised (not judged)")
+            continue          # CPython raised (an argument outside the fragment's domain, e.g. list(5)): not judged
+        if "value" not in got or got["value"] != proto.enc(want[1]):
+            bad += 1
+            if bad == 1:
+                run.disagreements.append({"label": f"fragment {fn}", "part": "translated source vs python", "policy": None, "env": None,
+                                          "impl": {"python": repr(want[1])[:600]}, "model": got, "fragment": fn, "args": repr(args)[:800],
+                                          "what": f"the translated fragment {fn} (Generated.Src) and the same statements run by CPython differ"})
+    run.evaluations += len(calls)
+    return bad == 0, f"{bad} of {len(calls)} evaluations differ" if bad else f"agree on {len(calls)} evaluations"
+
+
 def shrink(case: dict) -> dict:
     """drop rules / children while the implementation still contradicts the spec"""
     def fails(pol):
@@ -231,26 +379,49 @@ def shrink(case: dict) -> dict:
 def check(run: lib.Run, audit: dict) -> int:
     run.rule = ("exhaustive: every outcome sequence (6 classes) of length ≤4 (quick) / ≤6 (thorough) × 3 algorithms, every set of "
                 "≤2/≤3 children from a policy pool × 3 algorithms + one level of nesting; deciding policies wrapped in 6…90 nested sets; random: schema-grammar policies/sets "
-                "(nested, with ids) with requests generated towards them. non-trivial = some rule applied (reason matched/explicit_deny)")
+                "(nested, with ids) with requests generated towards them; the four translated fragments of evaluate/decide vs the same statements "
+                "run by CPython on a grid of 4 algorithms × effects/decisions × id shapes × obligations shapes × loop states. "
+                "non-trivial = some rule applied (reason matched/explicit_deny)")
     run.exhaustive = True
     run.assumptions = ["rules are JSON objects; effect/algorithm are strings (schema)",
                        "attribute-path segments do not name Python attributes of builtin values (DESIGN §2.1 ii)"]
     if not audit["ok"]:
         raise lib.CheckError(f"Lean build/audit failed at {audit['stage']}: {audit.get('log') or audit.get('forbidden') or audit.get('bad_axioms')}")
-    run_cases(run, audit, scale=run.boost)
+    # the combining logic as it is written NOW, translated into Lean, is proved equal to the model's (per-run obligation)
+    fr = audit["facts"].get("translated_fragments")
+    untranslatable = isinstance(fr, dict) and "extraction_failed" in fr
+    ok_tr, detail_tr = lib.run_obligation("C02_translated")
+    run.obligation("C02_translated: Generated.Src.{evaluate_step,evaluate_final,decide_step,decide_final} (the current source text of the "
+                   "loop tails and finalisations of policy.evaluate / policyset.decide) = stepRule/finalise/stepChild/finaliseSet of the model, "
+                   "for every input", ok_tr, "discharged" if ok_tr else (str(fr["extraction_failed"]) if untranslatable else detail_tr))
+    if untranslatable or not isinstance(fr, dict):
+        ok_py, detail_py = True, "skipped: the fragments are not in the translatable subset (see C02_translated)"
+    else:
+        ok_py, detail_py = translated_vs_python(run, fr)
+    run.obligation("translated fragments evaluate like the same statements run by CPython (translator + Model/PyLib.lean vs CPython)", ok_py, detail_py)
+    run_cases(run, audit, scale=run.boost * (1 if ok_tr else 2))
     violations = []
     consts = audit["facts"]["consts"]
-    if run.disagreements and not run.spec_failures:
-        run_cases(run, audit, scale=5)  # correspondence broke: widen the search for a failing input
+    if (run.disagreements or not ok_tr) and not run.spec_failures:
+        run_cases(run, audit, scale=5)  # correspondence or the translation tie broke: widen the search for a failing input
     if run.spec_failures:
         c = shrink({**run.spec_failures[0], "consts": consts})
         path = run.write_replay("spec", {"what": "implementation output contradicts the combining spec (Rbacx.Spec.tree)", "case": c,
                                          "more": len(run.spec_failures) - 1})
         violations.append((path, True))
-    elif run.disagreements:
-        path = run.write_replay("correspondence", {"what": "model (Rbacx.decideTree/evaluate) and implementation disagree on (decision, policy_id); "
-                                                   "theorems Rbacx.C02.* no longer speak about this code", "first": run.disagreements[0],
-                                                   "count": len(run.disagreements)})
+    elif not ok_tr:
+        path = run.write_replay("obligation", {"what": "per-run obligation Rbacx/Run/C02_translated.lean no longer checks: the translated source of the "
+                                               "loop tails / finalisations of policy.evaluate and policyset.decide is not proved equal to the model "
+                                               "functions (stepRule, finalise, stepChild, finaliseSet) that theorems Rbacx.C02.* are about; the widened "
+                                               "search found no input on which the implementation contradicts the combining spec",
+                                               "translation": fr, "lean": detail_tr[-1500:], "first_disagreement": run.disagreements[:1]})
+        violations.append((path, False))
+    elif run.disagreements or not ok_py:
+        first = run.disagreements[0] if run.disagreements else {"part": "translated source vs python", "what": detail_py, "policy": None}
+        what = ("translated source vs python: " + str(first.get("what")) + "; the obligation C02_translated rests on a translation that "
+                "CPython contradicts (or that could not be evaluated)" if first.get("part") else
+                "model (Rbacx.decideTree/evaluate) and implementation disagree on (decision, policy_id); theorems Rbacx.C02.* no longer speak about this code")
+        path = run.write_replay("correspondence", {"what": what, "first": first, "count": len(run.disagreements)})
         violations.append((path, False))
     return run.finish(audit, violations)
 
@@ -259,6 +430,10 @@ def replay(run: lib.Run, audit: dict, path: str) -> int:
     import json
     rp = json.load(open(path))
     c = rp.get("case") or rp.get("first")
+    if not c or c.get("policy") is None:
+        print("nothing to re-run on the implementation:", rp.get("what"))
+        print("recorded:", c or rp.get("lean"))
+        return 0
     out = impl(c["policy"], c["env"])
     print("impl:", out)
     print("recorded:", c.get("impl"), c.get("spec") or c.get("model"))
